@@ -204,7 +204,7 @@ fn('TreeImputerObj._sample_from_storages', FI, src_cls='TreeImputer', self_cls='
              'points_complete': lambda c: _points_have(c.old.storage_object, lambda f: f == c.a.feature_name)},
    body_ensures={
        # the index into the leaf reservoir is drawn over its full range
-       'full_range_index': lambda c: land(*[land(e['arg'][0] == 0) for e in c.events if e.get('prim') == 'random.randint']),
+       'full_range_index': lambda c: land(*[land(e['lo'] == 0) for e in c.events if e.get('uniform_int')]),
    },
    ensures={'args': lambda c: c.a_new.x_i.t == c.a.x_i.t,
             # the routed leaf has a reservoir => the value is that feature's value in one of ITS points, the tree's own
